@@ -1,5 +1,16 @@
 /-
 C33 — APK Signing Block contents are reported as encoded.
+Property theorems only (lemmas: AgVerif/Proof/SigBlock.lean).
+
+Model: AgVerif.SigBlock (Model/SigBlock.lean) — transliteration of parse_v2_v3_signature,
+parse_v2_signing_block, parse_v3_signing_block(v31), parse_signatures_or_digests, is_signed_v2/v3/v31,
+has_duplicate_apk_signature_ids WITH fixes/C33-sigblock-sequences-v31.diff applied.
+Spec: AgVerif.Spec.SigBlock — the block layout of the APK Signature Scheme documents
+(`encodeBlock`, `encodeValue`, `encodeSeq`, `apkFile`, `reported`).
+
+All theorems quantify over every list of pairs / signers / digests of any length and any bytes
+that fit their length fields (PairWF / SignerWF / ItemWF), every prefix `pre` (the local entries),
+every central directory body and every 12 bytes of EOCD counters.
 -/
 import AgVerif.Proof.SigBlock
 namespace AgVerif.C33
@@ -11,5 +22,144 @@ theorem consts_match_spec :
     pkEocd = zipEocdSig ∧ pkCd = zipCdSig ∧
     outerFormats = ["<4s", "<HHHHII", "<4s", "<Q16s", "<Q", "<QI"] ∧ u32Formats = ["<I"] := by
   decide
+
+/-- digests / signatures: every element of the sequence is reported, in order (the fixed D16). -/
+theorem lp_sequence_roundtrip (xs : List AlgItem) (hwf : ∀ x ∈ xs, ItemWF x) :
+    parseSeq (encodeSeq xs) = .ok xs :=
+  parseSeq_roundtrip xs hwf
+
+/-- a v2 value reports exactly its signers: digests, certificates, attributes, signatures, key. -/
+theorem signers_roundtrip_v2 (ss : List Spec.SigBlock.Signer) (hwf : ∀ s ∈ ss, SignerWF false s)
+    (hlen : (encodeSigners false ss).length < 2 ^ 32) :
+    parseValue false (encodeValue false ss) = .ok (ss.map (toModel false)) :=
+  parseValue_roundtrip false ss hwf hlen
+
+/-- a v3 / v3.1 value reports exactly its signers, including both pairs of SDK bounds. -/
+theorem signers_roundtrip_v3 (ss : List Spec.SigBlock.Signer) (hwf : ∀ s ∈ ss, SignerWF true s)
+    (hlen : (encodeSigners true ss).length < 2 ^ 32) :
+    parseValue true (encodeValue true ss) = .ok (ss.map (toModel true)) :=
+  parseValue_roundtrip true ss hwf hlen
+
+/-- every ID-value pair of the block is recorded, in order, with its id and exactly its value;
+    the walk raises nothing. -/
+theorem pairs_roundtrip (pre : List Nat) (ps : List Pair) (cdRest mid : List Nat) (h : FileWF pre ps mid) :
+    (parseOuter (apkFile pre ps cdRest mid)).err = none ∧
+    (parseOuter (apkFile pre ps cdRest mid)).blocks = (reported [] ps).map ofTriple ∧
+    (parseOuter (apkFile pre ps cdRest mid)).blocks.map (fun b => (b.id, b.data)) = ps := by
+  rw [parseOuter_apkFile pre ps cdRest mid h]
+  refine ⟨rfl, rfl, ?_⟩
+  have := reported_pairs [] ps
+  simpa [List.map_map, ofTriple, Function.comp_def] using this
+
+/-- the v2 / v3 / v3.1 flags are true exactly when a pair with that id is present. -/
+theorem flags_iff_present (pre : List Nat) (ps : List Pair) (cdRest mid : List Nat) (h : FileWF pre ps mid) :
+    ∃ a b c, (parseOuter (apkFile pre ps cdRest mid)).flags = some (a, b, c) ∧
+      (a = true ↔ ∃ p ∈ ps, p.1 = idV2) ∧ (b = true ↔ ∃ p ∈ ps, p.1 = idV3) ∧
+      (c = true ↔ ∃ p ∈ ps, p.1 = idV31) := by
+  rw [parseOuter_apkFile pre ps cdRest mid h]
+  exact ⟨_, _, _, rfl, hasId_reported [] ps _, hasId_reported [] ps _, hasId_reported [] ps _⟩
+
+/-- has_duplicate_apk_signature_ids is true exactly when two pairs share an id. -/
+theorem duplicate_flag_spec (pre : List Nat) (ps : List Pair) (cdRest mid : List Nat) (h : FileWF pre ps mid) :
+    hasDuplicate (parseOuter (apkFile pre ps cdRest mid)) = true ↔ ¬ (ps.map (·.1)).Nodup := by
+  rw [parseOuter_apkFile pre ps cdRest mid h]
+  simp only [hasDuplicate]
+  rw [dup_reported]
+  simp
+
+/-- the signers reported for a scheme are those of the FIRST pair carrying the scheme's id
+    (nothing when there is none) — for v2, v3 and v3.1 alike, whatever other pairs exist. -/
+theorem first_block_selected (sc : Scheme) (pre : List Nat) (ps : List Pair) (cdRest mid : List Nat)
+    (h : FileWF pre ps mid) :
+    parseScheme sc (apkFile pre ps cdRest mid) =
+      match ps.find? (·.1 == sc.key) with
+      | none => .ok []
+      | some p => parseValue sc.isV3 p.2 := by
+  have hfind := find_reported [] ps sc.key
+  have hflag : sc.flag (hasId ((reported [] ps).map ofTriple) keyV2,
+      hasId ((reported [] ps).map ofTriple) keyV3, hasId ((reported [] ps).map ofTriple) keyV31)
+      = hasId ((reported [] ps).map ofTriple) sc.key := by cases sc <;> rfl
+  unfold parseScheme
+  rw [parseOuter_apkFile pre ps cdRest mid h]
+  simp only [hflag]
+  cases hq : ps.find? (·.1 == sc.key) with
+  | none =>
+    have hno : hasId ((reported [] ps).map ofTriple) sc.key = false := by
+      rw [Bool.eq_false_iff, Ne, hasId_reported]
+      rintro ⟨p, hp, hk⟩
+      have := List.find?_eq_none.mp hq p hp
+      simp [hk] at this
+    simp [hno]
+  | some p =>
+    have hp := List.find?_some hq
+    have hmem := List.mem_of_find?_eq_some hq
+    have hyes : hasId ((reported [] ps).map ofTriple) sc.key = true := by
+      rw [hasId_reported]; exact ⟨p, hmem, by simpa using hp⟩
+    rw [hq] at hfind
+    simp only [hyes, Bool.not_true, Bool.false_eq_true, ↓reduceIte]
+    cases hb : ((reported [] ps).map ofTriple).find? (·.id == sc.key) with
+    | none => rw [hb] at hfind; simp at hfind
+    | some b =>
+      rw [hb] at hfind
+      simp only [Option.map_some, Option.some.injEq] at hfind
+      simp [hfind]
+
+/-- end to end, v2: the first v2 pair's signers are what get_*_v2 reports -/
+theorem file_signers_v2 (pre : List Nat) (ps : List Pair) (cdRest mid : List Nat) (h : FileWF pre ps mid)
+    (ss : List Spec.SigBlock.Signer) (hwf : ∀ s ∈ ss, SignerWF false s)
+    (hlen : (encodeSigners false ss).length < 2 ^ 32)
+    (hfirst : ps.find? (·.1 == idV2) = some (idV2, encodeValue false ss)) :
+    parseScheme .v2 (apkFile pre ps cdRest mid) = .ok (ss.map (toModel false)) := by
+  rw [first_block_selected .v2 pre ps cdRest mid h]
+  have : Scheme.v2.key = idV2 := by decide
+  rw [this, hfirst]
+  exact parseValue_roundtrip false ss hwf hlen
+
+/-- end to end, v3 -/
+theorem file_signers_v3 (pre : List Nat) (ps : List Pair) (cdRest mid : List Nat) (h : FileWF pre ps mid)
+    (ss : List Spec.SigBlock.Signer) (hwf : ∀ s ∈ ss, SignerWF true s)
+    (hlen : (encodeSigners true ss).length < 2 ^ 32)
+    (hfirst : ps.find? (·.1 == idV3) = some (idV3, encodeValue true ss)) :
+    parseScheme .v3 (apkFile pre ps cdRest mid) = .ok (ss.map (toModel true)) := by
+  rw [first_block_selected .v3 pre ps cdRest mid h]
+  have : Scheme.v3.key = idV3 := by decide
+  rw [this, hfirst]
+  exact parseValue_roundtrip true ss hwf hlen
+
+/-- end to end, v3.1 — with or WITHOUT a v3 pair in the block (the fixed second half of D16) -/
+theorem v31_without_v3 (pre : List Nat) (ps : List Pair) (cdRest mid : List Nat) (h : FileWF pre ps mid)
+    (ss : List Spec.SigBlock.Signer) (hwf : ∀ s ∈ ss, SignerWF true s)
+    (hlen : (encodeSigners true ss).length < 2 ^ 32)
+    (hfirst : ps.find? (·.1 == idV31) = some (idV31, encodeValue true ss)) :
+    parseScheme .v31 (apkFile pre ps cdRest mid) = .ok (ss.map (toModel true)) := by
+  rw [first_block_selected .v31 pre ps cdRest mid h]
+  have : Scheme.v31.key = idV31 := by decide
+  rw [this, hfirst]
+  exact parseValue_roundtrip true ss hwf hlen
+
+/-- certificates and public keys as returned by get_certificates_der_* / get_public_keys_der_* -/
+theorem certs_and_keys (v3 : Bool) (ss : List Spec.SigBlock.Signer) :
+    certsOf (ss.map (toModel v3)) = ss.flatMap (·.certs) ∧
+    pubkeysOf (ss.map (toModel v3)) = ss.map (·.pubkey) := by
+  constructor
+  · simp [certsOf, toModel, List.flatMap_map]
+  · simp [pubkeysOf, toModel]
+
+/-! Non-vacuity: concrete non-trivial objects satisfy the hypotheses. -/
+def exSigner : Spec.SigBlock.Signer :=
+  { digests := [(0x0103, [1, 2, 3]), (0x0104, [4, 5])], certs := [[0x30, 0x00], [0x30, 0x01, 0x07]],
+    attrs := [], sigs := [(0x0103, [9]), (0x0104, [8, 8]), (0x0201, [])], pubkey := [0x30, 0x00],
+    sdSdk := (33, 0x7fffffff), sgSdk := (33, 0x7fffffff) }
+
+example : parseSeq (encodeSeq exSigner.digests) = .ok exSigner.digests := by decide +kernel
+example : parseValue true (encodeValue true [exSigner, exSigner]) =
+    .ok ([exSigner, exSigner].map (toModel true)) := by decide +kernel
+example : (parseOuter (apkFile [7, 7, 7] [(idV31, encodeValue true [exSigner]), (0x42726577, [0, 0]),
+      (idV31, [1])] [0, 0] (List.replicate 12 0))).flags = some (false, false, true) := by decide +kernel
+example : hasDuplicate (parseOuter (apkFile [7, 7, 7] [(idV31, encodeValue true [exSigner]),
+      (0x42726577, [0, 0]), (idV31, [1])] [0, 0] (List.replicate 12 0))) = true := by decide +kernel
+/-- v3.1 present, v3 absent: the v3.1 signers are reported -/
+example : parseScheme .v31 (apkFile [7, 7, 7] [(0x42726577, [0, 0]), (idV31, encodeValue true [exSigner])]
+      [0, 0] (List.replicate 12 0)) = .ok [toModel true exSigner] := by decide +kernel
 
 end AgVerif.C33
